@@ -169,7 +169,7 @@ PollEvent(e) ==
               /\ PortsReadOK(acc.ports, e.dr)
               /\ ~acc.stopped                                        \* after a stop line run() returns: no further poll is observed
               /\ e.sum = vSum
-  IN /\ IF ok \/ acc.dub THEN TRUE ELSE Rep("MISMATCH", e, "control lines of one poll", <<"effects of the lines">>)
+  IN /\ IF ok \/ acc.dub \/ PROP = "C15" THEN TRUE ELSE Rep("MISMATCH", e, "control lines of one poll", <<"effects of the lines">>)
      /\ vR' = [vR EXCEPT !.s = [vS EXCEPT !.ov = WrAll(acc.mem, e.wr).ov], !.ports = acc.ports, !.odr = [n \in Ports |-> e.dr[n]], !.tm = acc.tm, !.paused = acc.paused, !.stopped = acc.stopped, !.cov = cov \cup {<<"poll", IF Len(e.lines) = 0 THEN "empty" ELSE IF Len(e.lines) = 1 THEN "single" ELSE "batch">>}]
 
 (* ---- one iteration -------------------------------------------------------------------------- *)
@@ -203,7 +203,7 @@ WritesFold(acc, ws, i, msgs, stamp) ==
 ItEvent(e) ==
   LET (* which request, if any, was accepted at this boundary: the candidate whose outcome the log shows *)
       a0 == AfterAccept(0)
-      lite == PROP \in {"C13L", "C18"}      \* long runs: accounting / sync / timer / continuity only, no instruction semantics
+      lite == PROP \in {"C13L", "C18", "C15"}      \* long runs: accounting / sync / timer / continuity only, no instruction semantics
       x0 == IF lite THEN AnyR(a0.s, 0) ELSE StepF(a0.s)
       VC == IF StepGood(x0, e.post) THEN {} ELSE {v \in 1..255 : CanAccept(vS, vPend, v)}
       av == [v \in VC |-> AfterAccept(v)]
@@ -253,7 +253,7 @@ ItEvent(e) ==
              \o (IF e.sum # sum2 THEN <<"state count">> ELSE <<>>)
              \o (IF ~sub THEN <<"pending request lost">> ELSE <<>>)
              \o (IF ~tk.ok THEN <<"timer: " \o tk.why>> ELSE <<>>)
-  IN /\ IF ok THEN TRUE ELSE Rep("MISMATCH", e @@ [res |-> "it"], RowName(x), why)
+  IN /\ IF ok \/ PROP = "C15" THEN TRUE ELSE Rep("MISMATCH", e @@ [res |-> "it"], RowName(x), why)
      /\ vR' = [vR EXCEPT !.s = PostState(e, WrAll(tk.bm, e.wr)), !.pend = e.pend, !.req = <<>>, !.ent = <<>>, !.sum = e.sum, !.ports = acc.ports, !.odr = [n \in Ports |-> e.dr[n]], !.tm = tk.tm, !.cov = cov \cup {<<"it", RowName(x)>>} \cup (IF c # 0 THEN {<<"it", "interrupt accepted">>} ELSE {}) \cup (IF crossed THEN {<<"it", "sync">>} ELSE {})]
 
 RetEvent(e) ==
@@ -264,7 +264,7 @@ RetEvent(e) ==
       ok == CASE e.res = "ok" -> acc.stopped \/ (vS.pc = vExit /\ Len(e.lines) = 0)
               [] e.res = "err" -> ~acc.stopped /\ ~vPaused /\ vS.pc # vExit /\ fails # {}
               [] OTHER -> FALSE
-  IN /\ IF ok \/ acc.dub THEN TRUE
+  IN /\ IF (PROP = "C15" /\ e.res # "panic") \/ (PROP # "C15" /\ (ok \/ acc.dub)) THEN TRUE
         ELSE Rep("MISMATCH", e, "run returned", <<IF e.res = "ok" THEN "returned success although neither the exit address was reached nor a stop line received"
                                                   ELSE IF e.res = "err" THEN "returned an error although the next instruction is executable" ELSE "panic">>)
      /\ vR' = [vR EXCEPT !.cov = cov \cup {<<"ret", e.res>>}]
